@@ -3,6 +3,7 @@
 Python only moves data: the call is made on the real code, the yielded values are
 recorded bit-exactly (float.hex), and Coq decides agree / holds / known."""
 import math
+import os
 import random as _random
 from fractions import Fraction
 from decimal import Decimal
@@ -622,6 +623,16 @@ def extra_evidence(results):
             omitted += 1
         if jitter_float(c["jitter"]) == 0 and n > 1:
             products += n - 1
-    return {"small_scope_grid_cases": grid, "sequences_of_100_or_more_values": longs,
+    t_tie = "unavailable"
+    try:
+        import hashlib
+        import common as _C
+        txt = open(os.path.join(_C.COQ, "Gen", "C15_Src.v")).read()
+        t_tie = {"generated": "coq/Gen/C15_Src.v", "sha1": hashlib.sha1(txt.encode()).hexdigest(),
+                 "definitions": [w.split()[1] for w in txt.splitlines() if w.strip().startswith(("Definition", "Fixpoint"))],
+                 "proved_equal_to_model_by": "Props/C15.v: C15_source_matches_model"}
+    except Exception as e:
+        t_tie = "unavailable: %r" % (e,)
+    return {"t_tie": t_tie, "small_scope_grid_cases": grid, "sequences_of_100_or_more_values": longs,
             "cases_inside_stall_guard": stall, "calls_with_factor_omitted": omitted,
             "successor_values_compared_bit_exactly_with_coq_binary64": products}
